@@ -98,9 +98,10 @@ Print Assumptions slice_head_zero_refuted.
    subquery; the code selects the ones needed later - a subset with the same meaning) denotes the reference
    table for all data, whatever the inner query is (summarized, ordered, limited, with window columns),
    and any verb of the fragment may follow: a filter on a window column, a summarize of a summarize, a verb
-   after slice_head. *)
+   after slice_head.  A plain alias() below the marker hands out new column identities: the outer query uses
+   them (flat_ok asks the renaming to keep different identities different). *)
 Theorem subquery_is_compiled_correctly : forall d a c,
-  compile (SubqueryMarker a) = Some c -> flat_ok a = true ->
+  compile (SubqueryMarker a) = Some c -> flat_ok (SubqueryMarker a) = true ->
   sem_query d c = export_ref (sem_ref d (SubqueryMarker a)).
 Proof. intros d a c C F. apply (sql_compile_correct_proof d (SubqueryMarker a) c C). exact F. Qed.
 Print Assumptions subquery_is_compiled_correctly.
@@ -114,6 +115,8 @@ Example filter_on_window_column_through_a_subquery :
   let flt := fun c => Filter c [EFn Op_greater_than [ECol 3%N; ELit (VInt 0)] false [] []] in
   flat_ok (flt w) = false
   /\ flat_ok (flt (SubqueryMarker (Alias w None))) = true
+  /\ flat_ok (Filter (SubqueryMarker (Alias w (Some [(1%N, 11%N); (2%N, 12%N); (3%N, 13%N)])))
+                     [EFn Op_greater_than [ECol 13%N; ELit (VInt 0)] false [] []]) = true
   /\ option_map (fun c => f_rows (sem_query d c)) (compile (flt (SubqueryMarker (Alias w None))))
      = Some [[VInt 1; VInt 4; VInt 6]; [VInt 1; VInt 2; VInt 6]]
   /\ f_rows (export_ref (sem_ref d (flt (SubqueryMarker (Alias w None))))) = [[VInt 1; VInt 4; VInt 6]; [VInt 1; VInt 2; VInt 6]].
